@@ -21,6 +21,9 @@ const (
 	dummyAudioFilterStageDummy    = 3
 )
 
+// dummyAudioFilterMaxGapMs 两个视频帧之间最多补齐这么长时间的静音帧，超过则认为时间戳发生了跳变
+const dummyAudioFilterMaxGapMs = 10 * 1000
+
 type DummyAudioFilter struct {
 	uk          string
 	waitAudioMs int
@@ -145,9 +148,19 @@ func (filter *DummyAudioFilter) handleDummyStage(msg base.RtmpMsg) {
 		filter.onPopProxy(msg)
 		filter.prevAudioTs = ats
 	} else {
+		// 注意，视频时间戳发生跳变（回退，或者一次性增加很多）时，不补齐中间的静音帧，直接从当前时间戳重新开始。
+		// 否则一个跳变到很大时间戳的视频帧，会导致此处循环生成数以亿计的静音帧，长时间占用group的锁。
+		if msg.Header.TimestampAbs < filter.prevAudioTs || msg.Header.TimestampAbs-filter.prevAudioTs > dummyAudioFilterMaxGapMs {
+			ats := msg.Header.TimestampAbs
+			amsg := filter.makeOneAudio(ats)
+			filter.onPopProxy(amsg)
+			filter.onPopProxy(msg)
+			filter.prevAudioTs = ats
+			return
+		}
 		for {
 			ats := filter.prevAudioTs + filter.calcAudioDurationMs()
-			if ats > msg.Header.TimestampAbs {
+			if ats > msg.Header.TimestampAbs || ats < filter.prevAudioTs {
 				break
 			}
 			amsg := filter.makeOneAudio(ats)
